@@ -34,6 +34,7 @@
 #include "opm/input/eclipse/Parser/raw/RawRecord.hpp"
 #include "opm/input/eclipse/Parser/raw/StarToken.hpp"
 
+#include <algorithm>
 #include <iostream>
 #include <sstream>
 
@@ -463,6 +464,132 @@ static int corr(uint64_t seed, const std::string& tier, const std::string& outdi
             sink.count(ok2 ? "rec.wparse.ok" : "rec.wparse.err");
         }
     }
+    // (iv) keyword level: the real Parser::parseString on one keyword (plus a sentinel keyword)
+    // against clean -> lines -> RawKeyword state machine -> ParserKeyword::parse of the model.
+    struct KwS { std::string name; char st; bool raw; std::string mn; size_t size; bool alt, dbl; std::string schemas; std::vector<std::vector<ItemS>> recs; };
+    std::vector<KwS> kws;
+    static const char* KW2[] = {"TABDIMS", "DIMENS", "EQLDIMS", "WELLDIMS", "REGDIMS", "WELSPECS", "COMPDAT", "WCONPROD", "WCONINJE",
+        "GRUPTREE", "PORO", "PERMX", "SATNUM", "ACTNUM", "DX", "TSTEP", "UDQ", "WCONHIST", "WELTARG", "GCONPROD", "START",
+        "MULTIPLY", "EQUALS", "COPY", "WSEGVALV", "TUNING", "ENDSCALE", "GRIDOPTS", "RPTRST", "WLIST", "UDQDIMS", "NETBALAN",
+        "BRANPROP", "NODEPROP", "WTEST", "GLIFTOPT", "WLIFTOPT", "VFPPROD", "VFPINJ", "MULTREGT", "WOPR", "FOPR", "GOPR", "BRINE",
+        "OIL", "WATER", "RUNSPEC", "DATES", "COMPORD", "WPIMULT", "WELOPEN", "GEFAC", "WEFAC", "ACTDIMS", "MINPV", "PINCH",
+        "UDT", "CECONT", "GECONT", "GCUTBACT", "MPFNNC", "FAULTS", "MULTFLT", "THPRES", "RPTSCHED", "RPTSOL", "NEXTSTEP", "DRSDT", "WRFTPLT", "GCONINJE", "WGRUPCON", "CSKIN"};
+    for (const char* name : KW2) {
+        if (!parser.isRecognizedKeyword(name)) continue;
+        const auto& kw = parser.getKeyword(name);
+        if (kw.isCodeKeyword() || !kw.requiredKeywords().empty() || !kw.prohibitedKeywords().empty()) { sink.count("kw.skipped"); continue; }
+        KwS k; k.name = name; k.raw = kw.rawStringKeyword(); k.alt = kw.isAlternatingKeyword(); k.dbl = kw.isDoubleRecordKeyword();
+        k.mn = "-"; k.size = 0;
+        switch (kw.getSizeType()) {
+        case Opm::SLASH_TERMINATED: k.st = 'S'; break;
+        case Opm::UNKNOWN: k.st = 'U'; break;
+        case Opm::DOUBLE_SLASH_TERMINATED: k.st = 'D'; break;
+        default:
+            if (kw.getSizeType() != Opm::FIXED && !kw.hasFixedSize()) { k.st = 0; break; }
+            if (kw.getSizeType() == Opm::SPECIAL_CASE_ROCK || kw.getSizeType() == Opm::FIXED_CODE) { k.st = 0; break; }
+            k.st = 'F'; k.size = kw.getFixedSize();
+            if (kw.min_size().has_value()) k.mn = std::to_string(*kw.min_size());
+        }
+        if (!k.st) { sink.count("kw.skipped"); continue; }
+        bool ok = true;
+        std::string sch;
+        for (auto it = kw.begin(); it != kw.end(); ++it) {
+            std::vector<ItemS> rs;
+            for (const auto& pi : *it) { ItemS s; if (!dumpItem(pi, s)) { ok = false; break; } rs.push_back(s); }
+            if (!ok) break;
+            if (!sch.empty()) sch += "|";
+            sch += schemaString(rs);
+            k.recs.push_back(rs);
+        }
+        if (!ok) { sink.count("kw.skipped"); continue; }
+        k.schemas = k.recs.empty() ? "none" : sch;
+        kws.push_back(k);
+        sink.count(std::string("kw.class.") + k.st + (k.raw ? "raw" : "") + (k.dbl ? "dbl" : "") + (k.alt ? "alt" : ""));
+    }
+    const std::string sentinel = "OIL";
+    const int nKw = thorough ? 40000 : 4000;
+    for (int n = 0; n < nKw && !kws.empty(); ++n) {
+        const KwS& k = kws[r.below(kws.size())];
+        auto schemaAt = [&](size_t i) -> const std::vector<ItemS>& {
+            static const std::vector<ItemS> none;
+            if (k.recs.empty()) return none;
+            if (i < k.recs.size()) return k.recs[i];
+            return k.alt ? k.recs[i % k.recs.size()] : k.recs.back();
+        };
+        auto oneRecord = [&](size_t idx) {
+            auto toks = randRecordTokens(r, schemaAt(idx), sink);
+            if (k.raw) { for (auto& t : toks) if (t.find('/') != std::string::npos && r.coin()) t = "X"; }
+            std::string rec = joinTokens(r, toks, r.coin() ? 1 : 0);
+            rec += r.coin(1, 6) ? "/" : " /";
+            if (r.coin(1, 4)) rec += k.raw ? " text after" : " text / after 'slash";
+            if (r.coin(1, 5)) rec += " -- comment '";
+            rec += "\n";
+            if (r.coin(1, 8)) rec += r.coin() ? "\n" : " \t -- only a comment\n";
+            return rec;
+        };
+        std::string text;
+        if (r.coin(1, 6)) text += "\n";
+        size_t nrec = 0;
+        switch (k.st) {
+        case 'F': nrec = k.size; if (r.coin(1, 10) && nrec > 0) --nrec; else if (r.coin(1, 20)) ++nrec; break;
+        case 'S': nrec = r.range(0, 3); break;
+        case 'U': nrec = r.range(1, 3); break;
+        default: nrec = r.range(1, 4);
+        }
+        for (size_t i = 0; i < nrec; ++i) {
+            text += oneRecord(i);
+            if (k.st == 'D' && r.coin(1, 3)) text += "/\n";
+        }
+        if (k.st == 'S' || k.st == 'D') { if (!r.coin(1, 15)) text += "/\n"; if (k.st == 'D' && !r.coin(1, 15)) text += "/\n"; }
+        if (k.st == 'F' && r.coin(1, 12)) text += "/\n";
+        bool withSentinel = (k.st == 'U') ? !r.coin(1, 10) : r.coin(1, 3);
+        if (withSentinel) text += (r.coin() ? "OIL\n" : "oil  -- x\n");
+
+        // names the real parser recognises among the first words of the lines
+        std::string names = "-";
+        {
+            std::vector<std::string> found;
+            size_t pos = 0;
+            while (pos <= text.size()) {
+                size_t e = text.find('\n', pos); if (e == std::string::npos) e = text.size();
+                std::string line = Opm::verif::lex_trim(Opm::verif::lex_strip_comments(text.substr(pos, e - pos)));
+                std::string dn = Opm::verif::lex_make_deck_name(line);
+                bool rec = false;
+                try { rec = !dn.empty() && parser.isRecognizedKeyword(dn); } catch (...) { rec = false; }
+                if (rec && std::find(found.begin(), found.end(), dn) == found.end()) found.push_back(dn);
+                pos = e + 1;
+            }
+            std::string s2;
+            for (size_t i = 0; i < found.size(); ++i) { if (i) s2 += ","; s2 += hex(found[i]); }
+            if (!s2.empty()) names = s2;
+        }
+        std::string ans;
+        {
+            Opm::ParseContext ctx; Opm::ErrorGuard errors;
+            try {
+                auto deck = parser.parseString(k.name + "\n" + text, ctx, errors);
+                errors.clear();
+                std::string next;
+                bool good = deck.size() >= 1 && deck[0].name() == k.name;
+                if (good && deck.size() == 1) next = "-";
+                else if (good && deck.size() == 2 && deck[1].name() == sentinel) next = hex(sentinel);
+                else good = false;
+                if (!good) ans = "err";
+                else {
+                    const auto& dk = deck[0];
+                    std::string recs;
+                    for (size_t i = 0; i < dk.size(); ++i) { if (i) recs += "|"; recs += dumpRecord(dk.getRecord(i), false); }
+                    if (dk.size() == 0) recs = "none";
+                    ans = "ok " + recs + " next=" + next;
+                }
+            } catch (const std::exception&) { errors.clear(); ans = "err"; }
+            catch (...) { errors.clear(); ans = "err"; }
+        }
+        sink.count(ans == "err" ? "kw.parse.err" : "kw.parse.ok");
+        sink.emit("deck.kw " + std::string(1, k.st) + " " + (k.raw ? "1" : "0") + " " + k.mn + " " + std::to_string(k.size) + " " +
+                  (k.alt ? "1" : "0") + " " + (k.dbl ? "1" : "0") + " " + k.schemas + " " + names + " " + hex(sentinel) + " " + hex(text), ans);
+    }
+
     sink.writeStats(outdir + "/stats.json");
     return 0;
 }
@@ -476,10 +603,11 @@ static int canon(const std::string& in, const std::string& outp) {
         size_t i = 0;
         while (i < line.size()) {
             // value starts at line start or after ',' / ';'
-            bool atStart = (i == 0) || line[i - 1] == ',' || line[i - 1] == ';';
+            auto delim = [](char c) { return c == ',' || c == ';' || c == '|' || c == ' '; };
+            bool atStart = (i == 0) || delim(line[i - 1]);
             if (atStart && i + 2 < line.size() && (line[i] == 'D' || line[i] == 'F') && (line[i + 1] == 'd' || line[i + 1] == 'n') && line[i + 2] == 't') {
                 size_t j = i + 3;
-                while (j < line.size() && line[j] != ',' && line[j] != ';') ++j;
+                while (j < line.size() && !delim(line[j])) ++j;
                 std::string tok = unhex(line.substr(i + 3, j - (i + 3)));
                 res += line.substr(i, 2);
                 try { res += vh::hexF64(Opm::readValueToken<double>(tok)); } catch (const std::exception&) { res += "?"; }
